@@ -2027,6 +2027,7 @@ pub async fn run_conn(ctx: Rc<Ctx>, cmds: Vec<Value>) {
                     "expect_disc" => "expect_disc",
                     "app_disc" => "app_disc",
                     "cause" => "cause",
+                    "expect_filters" => "expect_filters",
                     _ => "mark",
                 };
                 ctx.emit(
